@@ -256,6 +256,13 @@ func c05Round(c *Case) {
 			op.want = soloDigest(c, srcs[op.expr], ctxs[op.ctx], mode, op.k)
 			ops = append(ops, op)
 		}
+		if c.Index%2 == 0 {
+			// every goroutine of the round starts by compiling and evaluating the SAME expression with a regular
+			// expression no one has used before: the first load of a pattern happens concurrently
+			u := fmt.Sprintf("u%dx%d", c.Seed, c.Index)
+			fresh := &c05Op{g: gi, kind: "fresh-pattern", other: fmt.Sprintf("concat(string(matches('%sxx', '^%sx*$')), replace('%s-', '(%s)(-)', '$2$1'))", u, u, u, u), want: "string(true-" + u + ")"}
+			ops = append([]*c05Op{fresh}, ops...)
+		}
 		plan = append(plan, ops)
 	}
 	// one namespace map shared, read-only, by all goroutines of the round (a client's package-level map)
@@ -288,6 +295,13 @@ func c05Round(c *Case) {
 						op.got = "COMPILE-ERROR " + err.Error()
 					} else {
 						op.got = opDigest(ce, ctxs[op.ctx], "evaluate", 0, yield)
+					}
+				case "fresh-pattern":
+					ce, err := safeCompile(op.other)
+					if err != nil {
+						op.got = "COMPILE-ERROR " + err.Error()
+					} else {
+						op.got = opDigest(ce, ctxs[0], "evaluate", 0, yield)
 					}
 				case "mustcompile-invalid":
 					e := xpath.MustCompile(op.other)
@@ -336,6 +350,15 @@ func c05Round(c *Case) {
 		k := op.kind
 		if strings.HasPrefix(k, "compile") || k == "pkg-select" || k == "mustcompile-invalid" {
 			k = "compile"
+		}
+		if op.kind == "fresh-pattern" {
+			c.Count("op:fresh-pattern")
+			if op.got != op.want {
+				c.Violation("CONCURRENT-RESULT-DIFFERS-FROM-SOLO", map[string]interface{}{"expr": op.other, "operation": "every goroutine compiles and evaluates this expression first; its regular expressions were never used before", "goroutine": op.g, "goroutines": ng,
+					"concurrent": op.got, "solo": op.want})
+				return
+			}
+			continue
 		}
 		c.Count("op:" + k)
 		if strings.Contains(srcs[op.expr], "matches(") || strings.Contains(srcs[op.expr], "replace(") {
